@@ -38,7 +38,7 @@ def splits(n, k, rng):
 
 def run(ctx):
     rep, rng, sc = ctx.rep, ctx.rng, ctx.scratch
-    n_seq = 120 if ctx.thorough else 36
+    n_seq = 400 if ctx.thorough else 36
     cases = []
     for s in range(n_seq):
         pol = [0, 2, 1][s % 3]
